@@ -18,6 +18,7 @@ import numpy as np
 from . import _c02_util as U
 from . import c02 as E
 from ._c02_classes import CLASSES as C02_CLASSES, Base, _fullshape, _model_doms, _pick_dtype
+from . import _c35_nft as NFT
 
 ID = "C35"
 LEAN_MODULES = ["NiftyVerif.Props.C35", "NiftyVerif.Model.LinOpsProto", "NiftyVerif.Model.Response"]
@@ -500,6 +501,29 @@ def nft_oracle(case):
     return None
 
 
+# ------------------------------------------------------------------------------------------------ NFT on a rational lattice
+def _run_lattice(ctx, n):
+    """positions with pos·dst = a/M: the Lean model (Model/Nft.lean) gives E·x and E^H·y exactly as polynomials in
+    ω = e^{2πi/M}; the harness evaluates them numerically and compares the real operators at the epsilon-dependent
+    tolerance (class T); the exponent table is cross-checked in integers"""
+    cases = [NFT.gen_lattice(ctx.rng) for _ in range(n)]
+    outs = ctx.model(DRIVER, [NFT.model_line(c) for c in cases])
+    for case, out in zip(cases, outs):
+        ctx.stat("cls:lattice-" + case["cls"])
+        ctx.stat("lattice-M:%d" % case["M"])
+        ctx.case(case, True)
+        if isinstance(out, dict) and "exp" in out and not NFT.model_exp_ok(case, out):
+            ctx.disagree(case, {"exp": "python"}, {"exp": out["exp"][:6]}, "NFT lattice: exponent table of the Lean model")
+            continue
+        r = NFT.check_lattice(case, out)
+        if r is not None:
+            # model (exact lattice sums) vs code: a correspondence failure, re-examined by vcheck with the model-free oracle
+            ctx.disagree(case, {"code": r[1]}, {"model": "Model/Nft.lean"}, r[0])
+        r = nft_oracle(case)                     # model-free: explicit Python Fourier sums on the real code
+        if r is not None:
+            ctx.counterexample(case, r[0], r[1])
+
+
 # ------------------------------------------------------------------------------------------------ nifty.re sampling LOS
 def _gen_sampling(rng):
     nd = rng.choice([1, 2, 3])
@@ -582,6 +606,7 @@ def run(ctx):
         r = nft_oracle(c)
         if r is not None:
             ctx.counterexample(c, r[0], r[1])
+    _run_lattice(ctx, ctx.n(12, 600))
     for _ in range(ctx.n(4, 100)):
         c = _gen_sampling(ctx.rng)
         ctx.stat("cls:" + c["cls"])
